@@ -135,6 +135,15 @@ def run(module, cfg, tag=None, mode="check", workers=None, simulate=None, depth=
         cmd += ["-coverage", "1"]
     cmd += list(extra)
     cmd.append(module + ".tla")
+    if os.environ.get("VERIF_EXPORT_CFG"):
+        # keep a readable copy of every configuration the checks run (spec/cfg/<tag>.cfg), with the TLC command line
+        out = os.path.join(SPEC, "cfg")
+        os.makedirs(out, exist_ok=True)
+        trace = (env or {}).get("TRACE_FILE")
+        shown = [c if not c.startswith(BUILD) else "<rundir>/states" for c in cmd[cmd.index("tlc2.TLC"):]]
+        with open(os.path.join(out, "%s.cfg" % re.sub(r"[^A-Za-z0-9_.-]", "_", re.sub(r"_\d+$", "", tag))), "w") as f:
+            f.write("\\* module %s.tla; run as: java -cp tla2tools.jar %s%s\n\\* (Vocab.tla is generated from the tree under test by harness/vocab.py: check.py setup)\n%s"
+                    % (module, " ".join(shown), ("   with TRACE_FILE=<ndjson of recorded executions>" if trace else ""), cfg))
     e = dict(os.environ)
     if env:
         e.update({k: str(v) for k, v in env.items()})
